@@ -278,7 +278,10 @@ PreStart ==
   /\ At("pre", "start")
   /\ LET f == Top  n == f.node IN
      Commit(
-       IF StrInput(f.in, n)
+       \* Validate (preprocess.go validate): the function is handed the pointer to the value
+       IF Mode = "validate"
+       THEN [WithTop(Cur, [f EXCEPT !.pc = "pres"]) EXCEPT !.ev = Ev("pre", CbId(f, "r", 1), "self", dest[f.dp])]
+       ELSE IF StrInput(f.in, n)
        THEN [WithTop(Cur, [f EXCEPT !.pc = "pres"]) EXCEPT !.ev = Ev("pre", CbId(f, "r", 1), "val", 0)]
        ELSE WithTop(AddIssue(Cur, f.ctx, Iss(f.ip, "coerce", DType(n))), [f EXCEPT !.pc = "done"]))
 
@@ -286,9 +289,10 @@ PreResult ==
   /\ At("pre", "pres")
   /\ LET f == Top  n == f.node IN
      Commit(
-       IF n.ty = "ok"
-       THEN Push(WithTop(Cur, [f EXCEPT !.pc = "done"]), Frame(Elem(n), f.in, f.ip, f.dp, f.ctx, f.fe))
-       ELSE WithTop(AddIssue(Cur, f.ctx, Iss(f.ip, IF n.ty = "zerr" THEN "prez" ELSE "", DType(n))), [f EXCEPT !.pc = "done"]))
+       IF PreRuns(n)
+       THEN LET r0 == IF Mode = "validate" /\ n.ty = "mut" THEN SetDest(Cur, f.dp, 7) ELSE Cur
+            IN Push(WithTop(r0, [f EXCEPT !.pc = "done"]), Frame(Elem(n), PreIn(n, f.in), f.ip, f.dp, f.ctx, f.fe))
+       ELSE WithTop(AddIssue(Cur, f.ctx, Iss(f.ip, IF n.ty = "zerr" /\ Mode = "parse" THEN "prez" ELSE "", DType(n))), [f EXCEPT !.pc = "done"]))
 
 \* ---------------------------------------------------------------------------
 NodeDone ==
